@@ -493,8 +493,9 @@ theorem type_fits (z : ZBounds) (v : Int) (hD : InF15 z) (h64 : IntKind.int.inRa
 
 /-! ### the flag rewrites schema nodes in place: what a finished declaration is compared by (K35, K36) -/
 
-/-- without the flag the node a declaration is compared by is the node itself -/
-theorem keptSchema_off (cfg : Config) (t : Schema) (h : cfg.minSizedInts = false) : keptSchema cfg t = t := by
+/-- without the flag no bound of the node a declaration is compared by is touched (what remains is the int rewrite of
+    `type: integer` enum members, which does not depend on the flag) -/
+theorem keptSchema_off (cfg : Config) (t : Schema) (h : cfg.minSizedInts = false) : keptSchema cfg t = ecRewriteChildren 32 t := by
   simp [keptSchema, h]
 
 /-- the kept bounds of an integer node whose two bounds the chosen type implies: none at all -/
